@@ -300,7 +300,9 @@ CacheFindings(buf, pre, post, run, matched) ==
     (IF \E id \in IdsOf(pre[pr]) : id \notin IdsOf(post[pr]) THEN {<<"C06", "cache", "evicted", pr>>} ELSE {})
     \cup (IF matched /\ ~GovEq(pr, post[pr], run.tm[pr]) THEN {<<"C06", "cache", "mismatch", pr>>} ELSE {})
     \cup UNION {
-      (IF \E id \in Changed(pre[pr], post[pr], kd) :
+      \* (when the structure is explained the exact comparison above already ties every entry to a record
+      \*  the reference framed in this buffer; the search is the envelope for the unexplained case)
+      (IF ~matched /\ \E id \in Changed(pre[pr], post[pr], kd) :
              ~OccursIn(EncDef(pr, kd, StripDef(pr, kd, post[pr][kd][id])), buf)
          THEN {<<"C06", "cache", "not-from-input", pr \o "." \o kd>>} ELSE {})
       : kd \in Kinds}
